@@ -33,6 +33,9 @@ type RouteItem struct {
 	// side, id) is closed and the id accepted again at once (new answer), then dialled.
 	Raw      bool `json:"raw,omitempty"`
 	Reaccept bool `json:"reaccept,omitempty"`
+	// ShortConnect (grpc kinds): dialled with DialWithOptions and a 300 ms connect timeout (200 ms backoff);
+	// the first call waits for the connection (gRPC keeps reconnecting)
+	ShortConnect bool `json:"shortConnect,omitempty"`
 	// StaleDial (grpc, no mux): before the pair is established, the id is dialled once with nobody accepting
 	// (that dial times out after 5 s and is not judged); the pair that follows must be unaffected
 	StaleDial bool `json:"staleDial,omitempty"`
